@@ -200,6 +200,12 @@ fn run_sequence<V: TV>(m: usize, values: &[V], acts: &[Act]) -> (bool, String) {
     let mut obs = String::new();
     let res = guarded_mut(|| {
         let mut t = MaxTracker::<V>::new(m);
+        {
+            let st0 = St { raw: t.raw().iter().map(|v| v.to_b()).collect(), refmin: refmin.clone(), panicked: None };
+            if let Some(w) = check_state::<V>(m, values, &st0) {
+                return Some(format!("initial state: {}", w));
+            }
+        }
         for (i, a) in acts.iter().enumerate() {
             match a {
                 Act::Update(k, vi) => {
